@@ -151,8 +151,27 @@ class Policy(object):
             branch = any(isinstance(n, (ast.If, ast.IfExp)) for st in body for n in ast.walk(st))
             if branch or nst >= 6 or (self.returns_boolean(node) and len(node.args.args) == 1 and not node.args.defaults
                                       and not isinstance(getattr(node, "_parent", None), (ast.FunctionDef, ast.Lambda))):
-                return "leaf"       # (a predicate on one value, e.g. on a coordinate tuple, stays opaque; see returns_boolean)
+                return "leaf"
+            if nst >= 3 and len(node.args.args) in (1, 2) and not node.args.kwonlyargs and isinstance(node, ast.FunctionDef) \
+                    and self._unpacks_extended(node) and self.ret_shape(FuncV(node, mod)) == 4:
+                return "leaf"       # a compactly written coordinate formula (4-tuple of arithmetic on one or two extended points)       # (a predicate on one value, e.g. on a coordinate tuple, stays opaque; see returns_boolean)
         return "inline"
+
+    @staticmethod
+    def _unpacks_extended(node):
+        """every parameter is unpacked into four names (extended coordinates X, Y, Z, T)"""
+        params = [a.arg for a in node.args.args]
+        got = set()
+        for st in node.body:
+            if isinstance(st, ast.Assign) and len(st.targets) == 1 and isinstance(st.targets[0], (ast.Tuple, ast.List)):
+                t, v = st.targets[0], st.value
+                if isinstance(v, ast.Name) and v.id in params and len(t.elts) == 4:
+                    got.add(v.id)
+                if isinstance(v, (ast.Tuple, ast.List)) and len(v.elts) == len(t.elts):
+                    for te, ve in zip(t.elts, v.elts):
+                        if isinstance(ve, ast.Name) and ve.id in params and isinstance(te, (ast.Tuple, ast.List)) and len(te.elts) == 4:
+                            got.add(ve.id)
+        return bool(params) and got == set(params)
 
     def is_generator(self, f):
         k = ("gen", f._key)
@@ -188,7 +207,7 @@ class Policy(object):
             return False
         return True
 
-    _LEAF_BUILTINS = ("pow", "bool", "int", "len", "abs", "divmod", "min", "max")
+    _LEAF_BUILTINS = ("pow", "bool", "int", "len", "abs", "divmod", "min", "max", "tuple", "list", "sum")
 
     def is_leaf_arith(self, node, mod, _seen=()):
         """Pure integer/tuple arithmetic: no raise/assert/attribute/object construction;
@@ -201,7 +220,8 @@ class Policy(object):
         ok_stmt = (ast.Assign, ast.AugAssign, ast.Return, ast.If, ast.Expr, ast.Pass)
         ok_expr = (ast.Name, ast.Constant, ast.BinOp, ast.UnaryOp, ast.Compare, ast.BoolOp, ast.Tuple,
                    ast.List, ast.Subscript, ast.IfExp, ast.Load, ast.Store, ast.operator, ast.unaryop,
-                   ast.cmpop, ast.boolop, ast.expr_context, ast.Call, ast.Slice, ast.keyword)
+                   ast.cmpop, ast.boolop, ast.expr_context, ast.Call, ast.Slice, ast.keyword,
+                   ast.GeneratorExp, ast.ListComp, ast.comprehension)
         for st in body:
             for n in ast.walk(st):
                 if isinstance(n, ast.stmt):
@@ -249,6 +269,11 @@ class Policy(object):
                 return None
             if isinstance(e, ast.Tuple):
                 return len(e.elts)
+            if isinstance(e, ast.Call) and isinstance(e.func, ast.Name) and e.func.id in ("tuple", "list") and len(e.args) == 1 and not e.keywords:
+                return shape(e.args[0], depth + 1)
+            if isinstance(e, (ast.GeneratorExp, ast.ListComp)) and len(e.generators) == 1 and not e.generators[0].ifs \
+                    and isinstance(e.generators[0].iter, (ast.Tuple, ast.List)):
+                return len(e.generators[0].iter.elts)
             if isinstance(e, ast.IfExp):
                 a, b = shape(e.body, depth + 1), shape(e.orelse, depth + 1)
                 if a in ("self", "param"):
@@ -256,11 +281,11 @@ class Policy(object):
                 if b in ("self", "param"):
                     return a
                 return a if a == b else None
-            if isinstance(e, ast.Call) and isinstance(e.func, ast.Name) and e.func.id in [x.arg for x in node.args.args]:
+            if isinstance(e, ast.Call) and isinstance(e.func, ast.Name) and e.func.id in [x.arg for x in node.args.args + node.args.kwonlyargs]:
                 return "param"        # result of a function-valued parameter: no information
             if isinstance(e, ast.Name) and e.id in assigns and len(assigns[e.id]) == 1:
                 return shape(assigns[e.id][0], depth + 1)
-            if isinstance(e, ast.Name) and e.id in assigns and e.id not in [x.arg for x in node.args.args]:
+            if isinstance(e, ast.Name) and e.id in assigns and e.id not in [x.arg for x in node.args.args + node.args.kwonlyargs]:
                 # a local assigned several times (an accumulator): every assigned value has the same shape
                 ss = [shape(v, depth + 1) for v in assigns[e.id]]
                 real = {x for x in ss if x not in ("self", "param")}
@@ -303,6 +328,17 @@ def _is_closed(t):
         return True
     if isinstance(t, TupleV):
         return all(_is_closed(i) for i in t.items)
+    return False
+
+
+def _unbounded(it):
+    """An iterator that is never exhausted: itertools.count/cycle/repeat (no times), or a lazy
+    map/filter stage over one (a filter over it may fail to terminate, but it does not end)."""
+    if is_app(it, "itertools.count") or (is_app(it, "itertools.repeat") and len(it.args) == 1 and not it.kw) \
+            or (is_app(it, "itertools.cycle") and len(it.args) == 1):
+        return True
+    if is_app(it, "maplam", "filterlam", "filter", "map") and len(it.args) == 2:
+        return _unbounded(it.args[1])
     return False
 
 
@@ -395,6 +431,8 @@ class Ev(object):
             return True
         if isinstance(v, (FuncV, ClassV, Bound, ModV, ExtV, IterV)):
             return True
+        if is_app(v, "flag") and isinstance(v.args[0], Const):
+            return bool(v.args[0].v)
         if isinstance(v, TupleV):
             return bool(v.items)
         if isinstance(v, DictV):
@@ -415,7 +453,19 @@ class Ev(object):
         for (c, pol, _) in st.pc:
             if c == v:
                 return [(st, pol)]
-        if ty_of(v) in ("bytes", "str") and not is_app(v, "NotEq", "Eq"):
+        if is_app(v, "Eq", "NotEq") and len(v.args) == 2 and any(isinstance(a, Const) for a in v.args) \
+                and not all(isinstance(a, Const) for a in v.args):
+            # x == c is false once x == c' (another constant) is known on the path
+            c, x = (v.args[0], v.args[1]) if isinstance(v.args[0], Const) else (v.args[1], v.args[0])
+            for (t, pol, _) in st.pc:
+                if pol is True and is_app(t, "Eq") and len(t.args) == 2:
+                    c2, x2 = (t.args[0], t.args[1]) if isinstance(t.args[0], Const) else (t.args[1], t.args[0])
+                    if isinstance(c2, Const) and x2 == x and c2 != c and type(c2.v) is type(c.v):
+                        return [(st, v.f == "NotEq")]
+        if ty_of(v) == "int" and isinstance(v, (App, Sym)):
+            # truth value of an integer: it is not zero
+            return self.branch(mk_app("NotEq", (v, Const(0))), st, site)
+        if ty_of(v) in ("bytes", "str", "list", "bytearray") and not is_app(v, "NotEq", "Eq") and not isinstance(v, TupleV):
             # truth value of a byte/character string: it is non-empty
             return self.branch(mk_app("NotEq", (mk_app("len", (v,)), Const(0))), st, site)
         if is_app(v, "Or") and len(v.args) == 2:
@@ -591,14 +641,51 @@ class Ev(object):
         return [(s, TupleV(a, "tuple")) for s, a in self._seq(n.elts, env, st)]
 
     def e_List(self, n, env, st):
-        return [(s, TupleV(a, "list")) for s, a in self._seq(n.elts, env, st)]
+        out = []
+        for s, a in self._seq(n.elts, env, st):
+            # [f(D[0]), *D[1:]]  ==  D with D[0] := f(D[0])   (same normal form as [f(D[0])] + D[1:])
+            if len(a) == 2 and is_app(a[1], "star") and is_app(a[1].args[0], "slice") and a[1].args[0].args[1:] == (Const(1), NONE, NONE):
+                D = a[1].args[0].args[0]
+                from .terms import subterms as _st
+                if any(x == mk_app("index", (D, Const(0))) for x in _st(a[0])):
+                    out.append((s, App("setitem", (D, Const(0), a[0]))))
+                    continue
+            out.append((s, TupleV(a, "list")))
+        return out
 
     def e_Set(self, n, env, st):
         return [(s, TupleV(a, "set")) for s, a in self._seq(n.elts, env, st)]
 
     def e_Dict(self, n, env, st):
         if any(k is None for k in n.keys):
-            return [(st, App("dict-unpack", [Const(ast.unparse(n))]))]
+            # {..., **other, ...}: entries in order, later keys replace earlier ones at their first position
+            outs = [(st, [])]
+            for k, v in zip(n.keys, n.values):
+                nxt = []
+                for s1, acc in outs:
+                    for s2, vv in self.expr(v, env, s1):
+                        if k is None:
+                            vv = self.take(vv, s2)
+                            if isinstance(vv, TupleV):
+                                vv = mk_app("dict", (vv,))
+                            if not isinstance(vv, DictV):
+                                nxt.append((s2, None))
+                                continue
+                            nxt.append((s2, None if acc is None else acc + list(vv.items.items())))
+                        else:
+                            for s3, kk in self.expr(k, env, s2):
+                                nxt.append((s3, None if acc is None or not isinstance(kk, Const) else acc + [(kk.v, vv)]))
+                outs = nxt
+            res = []
+            for s1, acc in outs:
+                if acc is None:
+                    res.append((s1, App("dict-unpack", [Const(ast.unparse(n))])))
+                else:
+                    d = {}
+                    for kk, vv in acc:
+                        d[kk] = vv
+                    res.append((s1, DictV(list(d.items()))))
+            return res
         out = []
         for s1, ks in self._seq(n.keys, env, st):
             for s2, vs in self._seq(n.values, env, s1):
@@ -643,6 +730,9 @@ class Ev(object):
                 return []
             if r[0] == "func":
                 return self._bind_method(r, None, o, st, site)
+            fm = self._enum_member(r[2], name)
+            if fm is not None:
+                return [(st, fm)]
             return [(s_, self.msc_wrap(("class", r[2].qual, name), v_)) for s_, v_ in self.expr(r[1], self._class_env(r[2]), st)]
         if isinstance(o, SuperV):
             mro = o.recv.cls.mro() if isinstance(o.recv, Obj) else o.recv.mro()
@@ -698,6 +788,28 @@ class Ev(object):
             val = res[0].value
             st = res[0].state
         return val
+
+    def _enum_member(self, cls, name):
+        """Members of an enum.Flag / enum.IntFlag class as flag(value, class) terms: integer literals as
+        written, enum.auto() = the next power of two (the module's own rule for flags)."""
+        if not any(e in ("enum.Flag", "enum.IntFlag") for c in cls.mro() for e in c.extbases):
+            return None
+        vals, last = {}, 0
+        for stn in cls.node.body:
+            if isinstance(stn, ast.Assign) and len(stn.targets) == 1 and isinstance(stn.targets[0], ast.Name):
+                v = stn.value
+                if isinstance(v, ast.Constant) and isinstance(v.value, int) and not isinstance(v.value, bool):
+                    vals[stn.targets[0].id] = v.value
+                    last = max(last, v.value)
+                elif isinstance(v, ast.Call) and not v.args and not v.keywords and ast.unparse(v.func) in ("enum.auto", "auto"):
+                    nv = 1 if last == 0 else 1 << last.bit_length()
+                    vals[stn.targets[0].id] = nv
+                    last = nv
+                else:
+                    return None
+        if name not in vals:
+            return None
+        return App("flag", (Const(vals[name]), Const(cls.qual)))
 
     def _bind_method(self, r, obj, cls, st, site, force_bind=False):
         _, node, owner = r
@@ -962,11 +1074,32 @@ class Ev(object):
         g = n.generators[0] if n.generators else None
         simple_t = g is not None and (isinstance(g.target, ast.Name) or (isinstance(g.target, (ast.Tuple, ast.List))
                                                                          and all(isinstance(e, ast.Name) for e in g.target.elts)))
-        if len(n.generators) != 1 or g.ifs or g.is_async or not simple_t:
+        if len(n.generators) != 1 or g.is_async or not simple_t:
             return self._opaque_expr(tag, n, env, st)
+        if g.ifs:
+            # over a known sequence a filter is applied item by item when its conditions fold to
+            # constants for every item (e.g. `name in names`); otherwise the comprehension stays opaque.
+            # Over an unknown (lazy) iterable it becomes a filter stage (see below).
+            probe = self.expr(g.iter, env, st.fork())
+            for s0, v in probe:
+                v = self.take(v, s0)
+                if isinstance(v, DictV):
+                    v = TupleV([_const_term(k) for k in v.items], "list")
+                if isinstance(v, (TupleV, Const)):
+                    items = v.items if isinstance(v, TupleV) else [_const_term(x) for x in v.v]
+                    for item in items:
+                        e2 = self._cp(env)
+                        e2["locals"] = dict(e2["locals"])
+                        self.assign(g.target, item, e2, s0, self.site(n, env))
+                        for cnd in g.ifs:
+                            cv = self.expr(cnd, e2, s0.fork())
+                            if len(cv) != 1 or self.truth(cv[0][1]) is None:
+                                return self._opaque_expr(tag, n, env, st)
         res = []
         for s1, it in self.expr(g.iter, env, st):
             it = self.take(it, s1)
+            if isinstance(it, DictV):
+                it = TupleV([_const_term(k) for k in it.items], "list")          # iterating a dict: its keys, in order
             if isinstance(it, Const) and isinstance(it.v, (bytes, str, tuple, list)) and len(it.v) <= 256:
                 it = TupleV([_const_term(x) for x in it.v], "list")       # iterating a constant: its items
             if isinstance(it, TupleV):
@@ -977,6 +1110,14 @@ class Ev(object):
                         e2 = self._cp(env)
                         e2["locals"] = dict(e2["locals"])
                         if not self.assign(g.target, item, e2, s2, self.site(n, env)):
+                            continue
+                        keep = True
+                        for cnd in g.ifs:                       # (checked above: folds to a constant for this item)
+                            cv = self.expr(cnd, e2, s2.fork())
+                            if len(cv) == 1 and self.truth(cv[0][1]) is False:
+                                keep = False
+                        if not keep:
+                            nxt.append((s2, acc))
                             continue
                         if tag == "dictcomp":
                             for s3, kk in self.expr(n.key, e2, s2):
@@ -999,20 +1140,30 @@ class Ev(object):
                     else:
                         res.append((s2, TupleV(acc, "list")))
                 continue
-            if tag in ("dictcomp", "setcomp") or not isinstance(g.target, ast.Name):
+            if tag in ("dictcomp", "setcomp"):
                 res += self._opaque_expr(tag, n, env, s1)
                 continue
             ph = Sym("\u03bb%d" % self.depth)
             e2 = self._cp(env)
             e2["locals"] = dict(e2["locals"])
-            e2["locals"][g.target.id] = ph
+            if not self.assign(g.target, ph, e2, s1, self.site(n, env)):
+                res += self._opaque_expr(tag, n, env, s1)
+                continue
             mark = len(self.raised)
-            bodies = self.expr(n.elt, e2, s1.fork())
+            src = it
+            ok = True
+            for cnd in g.ifs:              # (elt for v in it if c): a filter stage below the mapping
+                cb = self.expr(cnd, e2, s1.fork())
+                if len(cb) != 1 or len(self.raised) > mark:
+                    ok = False
+                    break
+                src = App("filterlam", (cb[0][1], src))
+            bodies = self.expr(n.elt, e2, s1.fork()) if ok else []
             if len(bodies) != 1 or len(self.raised) > mark:
                 del self.raised[mark:]
                 res += self._opaque_expr(tag, n, env, s1)
                 continue
-            res.append((s1, mk_app("maplam", (bodies[0][1], it))))
+            res.append((s1, mk_app("maplam", (bodies[0][1], src))))
         return res
 
     def e_ListComp(self, n, env, st):
@@ -1059,8 +1210,12 @@ class Ev(object):
     def e_YieldFrom(self, n, env, st):
         site = self.site(n, env)
         outs = self.expr(n.value, env, st)
-        if len(outs) > 1 or not all(isinstance(v, TupleV) for _, v in outs):
-            raise AnalysisError("%s:%d: yield from something that is not a sequence of known length" % (site[0], site[1]))
+        outs = [(s1, self.take(v, s1)) for s1, v in outs]
+        if len(outs) == 1 and not isinstance(outs[0][1], TupleV):
+            env["locals"]["<yields-unknown>"] = outs[0][1]        # what the generator yields cannot be enumerated
+            return [(outs[0][0], NONE)]
+        if len(outs) > 1:
+            raise AnalysisError("%s:%d: yield from an expression that forks" % (site[0], site[1]))
         for s1, v in outs:
             for item in v.items:
                 self._yield(env, item, s1, site)
@@ -1192,6 +1347,20 @@ class Ev(object):
 
     def _call_opaque_method(self, recv, name, args, kw, st, site):
         args = tuple(self.take(a, st) for a in args)
+        if name in ("startswith", "endswith", "removeprefix", "removesuffix") and len(args) == 1 and not kw \
+                and isinstance(args[0], Const) and isinstance(args[0].v, (bytes, str)) and ty_of(recv) in ("bytes", "str") \
+                and not isinstance(recv, Const):
+            k = len(args[0].v)
+            head = name in ("startswith", "removeprefix")
+            part = mk_app("slice", (recv, NONE, Const(k), NONE)) if head else mk_app("slice", (recv, Const(-k), NONE, NONE))
+            test = mk_app("Eq", (part, args[0])) if k else Const(True)
+            if name in ("startswith", "endswith"):
+                return [Outcome("return", test, st)]
+            out = []
+            for s1, b in self.branch(test, st, site):
+                rest = mk_app("slice", (recv, Const(k), NONE, NONE)) if head else mk_app("slice", (recv, NONE, Const(-k), NONE))
+                out.append(Outcome("return", (rest if k else recv) if b else recv, s1))
+            return out
         if is_app(recv, "msc"):
             if name in _MUTATORS:
                 st.log.append(("mutator-call", recv, name, args, site))
@@ -1242,8 +1411,17 @@ class Ev(object):
                 return [Outcome("return", args[1], st)]
             self.do_raise(st, "StopIteration", site)
             return []
+        if name == "next" and len(args) == 1 and self.loop_mode == "once" and isinstance(args[0], App) \
+                and (args[0].f in ("maplam", "filterlam", "filter", "map") or args[0].f.startswith("fn:")):
+            st.log.append(("loop-enter", site))
+            return [Outcome("return", v, s1) for s1, v in self.elem_of(args[0], st, site)]
         if name not in ("isinstance", "id", "type", "callable"):
             args = tuple(self.take(a, st) for a in args)         # whoever receives an iterator consumes it
+        if name in ("itertools.chain", "itertools.chain.from_iterable") and not kw:
+            parts = list(args) if name == "itertools.chain" else (list(args[0].items) if len(args) == 1 and isinstance(args[0], TupleV) else None)
+            parts = None if parts is None else [self.take(p_, st) for p_ in parts]
+            if parts is not None and all(isinstance(p_, TupleV) for p_ in parts):
+                return [Outcome("return", self.new_iter(TupleV([i for p_ in parts for i in p_.items], "list"), st), st)]
         if name in ("zip", "enumerate", "reversed", "iter", "filter") and not (name == "iter" and len(args) != 1):
             v = mk_app(name, args, kw) if name != "iter" else args[0]
             if isinstance(v, TupleV):
@@ -1461,7 +1639,9 @@ class Ev(object):
                 paths = self.block(f.node.body, env, st)
                 out = []
                 for p in paths:
-                    if is_gen and p.kind == "normal":
+                    if is_gen and p.kind == "normal" and "<yields-unknown>" in p.val["locals"]:
+                        out.append(Outcome("return", App("generator:" + f.qual, ordered + (p.val["locals"]["<yields-unknown>"],)), p.st))
+                    elif is_gen and p.kind == "normal":
                         out.append(Outcome("return", self.new_iter(TupleV(list(p.val["locals"].get("<yields>", ())), "list"), p.st), p.st))
                     elif is_gen and p.kind == "return":      # (s_Return of a generator returns what was yielded so far)
                         out.append(Outcome("return", self.new_iter(p.val, p.st), p.st))
@@ -1524,10 +1704,12 @@ class Ev(object):
     # completion (an unbounded candidate search) is evaluated as the generator's body with each
     # `yield v` standing for one execution of the consumer's loop body with x = v
     def _yield_to_consumer(self, n, env, st):
-        (cn, cenv) = env["yield_handler"]
         site = self.site(n, env)
         e2 = self._cp(env)
         outs = self.expr(n.value.value, e2, st) if n.value.value is not None else [(st, NONE)]
+        if env["yield_handler"] == "first":
+            return [Path(s1, "gen-return", v) for s1, v in outs]      # the element asked for by next()/a pipeline
+        (cn, cenv) = env["yield_handler"]
         res = []
         for s1, v in outs:
             ce = self._cp(cenv)
@@ -1542,6 +1724,82 @@ class Ev(object):
                 else:
                     res.append(q)
         return res
+
+    @staticmethod
+    def _subst_lambda(body, x):
+        """body[placeholder := x]; placeholders of nested mappings stay bound to those mappings"""
+        def go(t):
+            if isinstance(t, Sym) and t.n.startswith("\u03bb"):
+                return x
+            if isinstance(t, App):
+                if t.f in ("maplam", "filterlam") and len(t.args) == 2:
+                    return mk_app(t.f, (t.args[0], go(t.args[1])))
+                return mk_app(t.f, [go(a) for a in t.args], [(k, go(v)) for k, v in t.kw])
+            if isinstance(t, TupleV):
+                return TupleV([go(a) for a in t.items], t.kind)
+            if isinstance(t, DictV):
+                return DictV([(k, go(v)) for k, v in t.items.items()])
+            return t
+        return go(body)
+
+    def elem_of(self, it, st, site):
+        """One symbolic element delivered by a lazy iterable (one-iteration mode): -> [(state, element)].
+        Mappings are applied, filters become path conditions (a rejected item is a way round the loop:
+        recorded in self.continues), an unbounded generator is run up to its first yield."""
+        if is_app(it, "maplam") and len(it.args) == 2:
+            return [(s1, self._subst_lambda(it.args[0], x)) for s1, x in self.elem_of(it.args[1], st, site)]
+        if is_app(it, "filterlam") and len(it.args) == 2:
+            out = []
+            for s1, x in self.elem_of(it.args[1], st, site):
+                for s2, b in self.branch(self._subst_lambda(it.args[0], x), s1, site):
+                    if b:
+                        out.append((s2, x))
+                    else:
+                        self.continues.append(Path(s2, "continue", {"locals": {}}))
+            return out
+        if is_app(it, "filter", "map") and len(it.args) == 2 and isinstance(it.args[0], (FuncV, Bound, ClassV)):
+            out = []
+            for s1, x in self.elem_of(it.args[1], st, site):
+                for o in self.call(it.args[0], (x,), (), s1, site):
+                    if it.f == "map":
+                        out.append((o.state, o.value))
+                        continue
+                    for s2, b in self.branch(o.value, o.state, site):
+                        if b:
+                            out.append((s2, x))
+                        else:
+                            self.continues.append(Path(s2, "continue", {"locals": {}}))
+            return out
+        if isinstance(it, App) and it.f.startswith("fn:") and self.loop_mode == "once":
+            g = None
+            for (m_, q_, node_) in self.world.functions():
+                if m_.name + "." + q_ == it.f[3:]:
+                    parent = getattr(node_, "_parent", None)
+                    g = FuncV(node_, m_, owner=m_.env.get(parent.name) if isinstance(parent, ast.ClassDef) else None)
+            if g is not None and self.policy.is_generator(g) and g.owner is None:
+                loc = self.bind_args(g, it.args, (), st, site)
+                if loc is not None:
+                    a = g.node.args
+                    order = [x.arg for x in a.posonlyargs] + [x.arg for x in a.args] + [x.arg for x in a.kwonlyargs]
+                    loc["<yields>"] = ()
+                    genv = {"locals": loc, "mod": g.mod, "closure": g.closure, "func": g, "fname": g.qual,
+                            "params": tuple(order), "yield_handler": "first"}
+                    st.approx.append((site, "generator %s run up to its first yield" % g.qual))
+                    self.depth += 1
+                    self.active.append(g.qual)
+                    try:
+                        paths = self.block(g.node.body, genv, st)
+                    finally:
+                        self.depth -= 1
+                        self.active.pop()
+                    out = []
+                    for p in paths:
+                        if p.kind == "gen-return":
+                            out.append((p.st, p.val))
+                        elif p.kind == "continue":
+                            self.continues.append(p)
+                    return out
+        return [(st, App("iter-elem", [it]))]
 
     def _fuse_generator(self, n, env, st):
         """-> paths of `for <target> in <generator call>` by fusion, or None when it does not apply."""
@@ -1790,6 +2048,21 @@ class Ev(object):
             return True
         if isinstance(t, (ast.Tuple, ast.List)):
             v = self.take(v, st)
+            stars = [i for i, e in enumerate(t.elts) if isinstance(e, ast.Starred)]
+            if len(stars) == 1 and isinstance(v, TupleV) and len(v.items) >= len(t.elts) - 1:
+                i = stars[0]
+                tail = len(t.elts) - 1 - i
+                for e, x in zip(t.elts[:i], v.items[:i]):
+                    self.assign(e, x, env, st, site)
+                self.assign(t.elts[i].value, TupleV(list(v.items[i:len(v.items) - tail]), "list"), env, st, site)
+                for e, x in zip(t.elts[i + 1:], v.items[len(v.items) - tail:]):
+                    self.assign(e, x, env, st, site)
+                return True
+            if len(stars) == 1 and stars[0] == len(t.elts) - 1 and not isinstance(v, TupleV):
+                for j, e in enumerate(t.elts[:-1]):
+                    self.assign(e, mk_app("index", (v, Const(j))), env, st, site)
+                self.assign(t.elts[-1].value, mk_app("slice", (v, Const(len(t.elts) - 1), NONE, NONE)), env, st, site)
+                return True
             if isinstance(v, TupleV):
                 if len(v.items) != len(t.elts):
                     self.do_raise(st, "ValueError", site, "unpack length mismatch")
@@ -1941,6 +2214,7 @@ class Ev(object):
         out = []
         site = self.site(n, env)
         iters = [(s0, self.take(it, s0)) for s0, it in self.expr(n.iter, env, st)]
+        iters = [(s0, TupleV([_const_term(k) for k in it.items], "list") if isinstance(it, DictV) else it) for s0, it in iters]
         iters = [(s0, TupleV([_const_term(x) for x in it.v], "list") if isinstance(it, Const) and isinstance(it.v, (bytes, str, tuple, list))
                   and len(it.v) <= 256 else it) for s0, it in iters]
         if any(isinstance(it, TupleV) and len(it.items) > UNROLL_MAX for _, it in iters):
@@ -1976,11 +2250,17 @@ class Ev(object):
         env0 = env
         env = self._havoc_carried(n, env)
         for s1, it in iters:
-            def bind(e, it=it, s1=s1):
-                self.assign(n.target, App("iter-elem", [it]), e, s1, site)
-            out += self._loop_once(n, env, s1, bind)
+            if self.loop_mode == "once":
+                for s1b, el in self.elem_of(it, s1, site):
+                    def bind(e, el=el, s1b=s1b):
+                        self.assign(n.target, el, e, s1b, site)
+                    out += self._loop_once(n, env, s1b, bind)
+            else:
+                def bind(e, it=it, s1=s1):
+                    self.assign(n.target, App("iter-elem", [it]), e, s1, site)
+                out += self._loop_once(n, env, s1, bind)
             # the zero-iteration exit (not for unbounded iterators)
-            if not (is_app(it, "itertools.count")):
+            if not _unbounded(it):
                 s0 = s1.fork()
                 s0.pc.append((App("exhausted", [it]), True, site))
                 out += self.block(n.orelse, self._cp(env0), s0)
